@@ -31,6 +31,12 @@ func (ir *IntrospectionResolver) ResolveIntrospectionFields(selectionSet ast.Sel
 		case "__schema":
 			introspectionResult[f.Alias] = ir.resolveSchema(schema, f.SelectionSet)
 			isIntrospection = true
+		case "__typename":
+			// __typename of the root object itself
+			if f.ObjectDefinition != nil {
+				introspectionResult[f.Alias] = f.ObjectDefinition.Name
+				isIntrospection = true
+			}
 		}
 	}
 
